@@ -228,6 +228,7 @@ func (sc *scenario) driveGated() string {
 			cr := cancellable[r.Intn(len(cancellable))]
 			if sc.sch.atGate(cr.id) {
 				cr.cancelledAt = "gate"
+				sc.w.Count("cancelled_while_at_backend_gate", 1)
 			} else {
 				cr.cancelledAt = "inside"
 				sc.w.Count("cancelled_while_parked_inside", 1)
